@@ -25,6 +25,9 @@ pub struct C03;
 pub struct Step {
     pub stack: Vec<Ad>,
     pub op: HOp,
+    /// further operations issued on the SAME adapter instances right after `op`
+    /// (adapters are otherwise rebuilt for every step, as short-lived borrows are in real code)
+    pub more: Vec<HOp>,
 }
 
 /// Hashable mirror of `TOp`.
@@ -104,6 +107,7 @@ const PROBES: &[&str] = &[
     "far_from_origin",
     "area_wider_than_255",
     "area_over_65535_pixels",
+    "several_ops_on_same_adapter_instances",
 ];
 
 const FAULTS: &[&str] = &["short_stream", "surplus_stream", "unbounded_stream"];
@@ -113,15 +117,27 @@ fn probe(name: &str) -> u64 {
 }
 
 struct OpVisitor<'a> {
-    op: &'a TOp,
+    ops: &'a [TOp],
     boxes: Vec<Rectangle>,
+    /// bounding box of the top layer after the operations
+    top_box_after: Option<Rectangle>,
 }
 
 impl Visitor for OpVisitor<'_> {
     type Out = Result<(), SimError>;
     fn visit<C: SimColor>(&mut self, top: &mut DynTarget<'_, C>, boxes: &[Rectangle]) -> Self::Out {
         self.boxes = boxes.to_vec();
-        match self.op {
+        for op in self.ops {
+            issue_one(top, op)?;
+        }
+        self.top_box_after = Some(top.bounding_box());
+        Ok(())
+    }
+}
+
+fn issue_one<C: SimColor>(top: &mut DynTarget<'_, C>, op: &TOp) -> Result<(), SimError> {
+    {
+        match op {
             TOp::DrawIter(px) => top.draw_iter(px.iter().map(|(x, y, c)| Pixel(Point::new(*x, *y), C::from_u32(*c)))),
             TOp::FillContiguous { area, colours, repeat } => {
                 let a = crate::erased::rect_of(area);
@@ -247,7 +263,13 @@ fn run_history<C: SimColor>(sc: &Scenario, opts: &Opts) -> RunOut {
                     J::Arr(
                         sc.steps
                             .iter()
-                            .map(|s| J::obj().set("stack_device_first", stack_json(&s.stack)).set("op", op_json(&s.op)))
+                            .map(|s| {
+                                let mut j = J::obj().set("stack_device_first", stack_json(&s.stack)).set("op", op_json(&s.op));
+                                if !s.more.is_empty() {
+                                    j.put("then_on_the_same_adapter_instances", J::Arr(s.more.iter().map(op_json).collect()));
+                                }
+                                j
+                            })
                             .collect(),
                     ),
                 ),
@@ -259,8 +281,8 @@ fn run_history<C: SimColor>(sc: &Scenario, opts: &Opts) -> RunOut {
     if sc.dev.bbox[0].abs() > 32768 || sc.dev.bbox[1].abs() > 32768 {
         out.probes |= probe("far_from_origin");
     }
-    for st in &sc.steps {
-        let a = match &st.op {
+    for op in sc.steps.iter().flat_map(|st| std::iter::once(&st.op).chain(st.more.iter())) {
+        let a = match op {
             HOp::FillContiguous { area, .. } | HOp::FillSolid { area, .. } => Some(*area),
             _ => None,
         };
@@ -295,19 +317,27 @@ fn run_history<C: SimColor>(sc: &Scenario, opts: &Opts) -> RunOut {
         }
         prev_stack = Some(&step.stack);
         stack_probes(&mut out, &m, &step.stack);
-        let top = step.op.top();
+        let tops: Vec<TOp> = std::iter::once(&step.op).chain(step.more.iter()).map(|o| o.top()).collect();
+        let top = tops[0].clone();
+        if tops.len() > 1 {
+            out.probes |= probe("several_ops_on_same_adapter_instances");
+        }
         let crop_empty = m.has_crop_over_empty();
 
         // what the model says
-        let issued = top.writes(&m.top_box());
-        let reaching = m.push_down(level, issued.clone());
-        op_probes(&mut out, &m, &step.stack, &top, &issued, &reaching, &dev_r);
+        let mut reaching: Vec<crate::model::W> = Vec::new();
+        for t in &tops {
+            let issued = t.writes(&m.top_box());
+            let r = m.push_down(level, issued.clone());
+            op_probes(&mut out, &m, &step.stack, t, &issued, &r, &dev_r);
+            reaching.extend(r);
+        }
 
         let calls_before = dev.st.calls.len();
         dev.st.guard = m.guard(level);
         dev.st.guard_violation = None;
 
-        let mut v = OpVisitor { op: &top, boxes: Vec::new() };
+        let mut v = OpVisitor { ops: &tops, boxes: Vec::new(), top_box_after: None };
         let run_op = !crop_empty;
         let result: Result<Result<(), SimError>, String> = if run_op {
             guarded(|| {
@@ -381,6 +411,20 @@ fn run_history<C: SimColor>(sc: &Scenario, opts: &Opts) -> RunOut {
                         ),
                     ));
                     break;
+                }
+            }
+            if viol.is_none() {
+                if let (Some(after), Some(before)) = (v.top_box_after, v.boxes.last()) {
+                    if !R::from_rect(&after).same_points(&R::from_rect(before)) {
+                        viol = Some(mk(
+                            "bounding_box",
+                            format!(
+                                "the top layer reported bounding box {:?} before the operation(s) and {:?} afterwards",
+                                R::from_rect(before).to_arr(),
+                                R::from_rect(&after).to_arr()
+                            ),
+                        ));
+                    }
                 }
             }
             if viol.is_none() && v.boxes.len() != level + 1 {
@@ -692,7 +736,13 @@ impl Property for C03 {
             let m = StackModel::new(dev_r, dev_kind, &stack);
             let region = gen_region(&m, &virt0);
             let op = gen_op(src, &m, region, si);
-            steps.push(Step { stack, op });
+            let mut more = Vec::new();
+            if src.draw(4) == 3 {
+                for k in 0..1 + src.draw(2) {
+                    more.push(gen_op(src, &m, region, si + 100 * (k + 1)));
+                }
+            }
+            steps.push(Step { stack, op, more });
         }
         Scenario { dev, dev_kind, steps }
     }
